@@ -19,7 +19,7 @@ ASSUMPTIONS = [
     "MDAM and PointerNetwork do not go through DecodingStrategy.step per decoder call in a way the tap can align; MDAM's normalisation is covered via C14 (fixed defect), PointerNetwork via the round trip only when the tap aligns",
     "beam search is C13's subject",
 ]
-REQUIRED_COUNTERS = ["c11_minibatch_roundtrips", "c11_forwards", "c11_step_rows", "c11_forced_steps", "c11_padding_step_rows", "c11_entropy_checked", "c11_sum_checked", "c11_roundtrips", "c11_roundtrips_replicated", "c11_stepwise_rows", "c11_flagged_function_calls", "c11_flagged_policy_rows"]
+REQUIRED_COUNTERS = ["c11_select_best_roundtrips", "c11_ffsp_multistage_decodes", "c11_ffsp_stage_changes", "c11_minibatch_roundtrips", "c11_forwards", "c11_step_rows", "c11_forced_steps", "c11_padding_step_rows", "c11_entropy_checked", "c11_sum_checked", "c11_roundtrips", "c11_roundtrips_replicated", "c11_stepwise_rows", "c11_flagged_function_calls", "c11_flagged_policy_rows"]
 MIN_NONTRIVIAL = {"quick": 900, "thorough": 8000}
 WORKERS = {"quick": 14, "thorough": 16}
 BUDGET_S = {"quick": 500, "thorough": 3000}
@@ -72,6 +72,19 @@ def cases(tier, seed):
             for clip in (10, 0, 3):
                 for r in range(2 if q else 6):
                     out.append(dict(kind="stepwise", env=env, extra=extra, B=B, clip=clip, s=rnd.randrange(10**6), wseed=r))
+    # best-of-k decoding: returned reward / log-probs / actions must belong together (state-read rewards: L2D on FJSP / JSSP, AM on MDCPDP)
+    sb = [("l2d", "fjsp", dict(jobs=3, mas=2, min_ops=1, max_ops=3, mask_no_ops=True), ("sampling",)), ("l2d", "jssp", dict(jobs=3, mas=3, one2one=True, mask_no_ops=True), ("sampling",)),
+          ("am", "mdcpdp", {}, ("sampling",)), ("am", "tsp", {}, ("sampling", "multistart_sampling", "multistart_greedy")), ("am", "cvrp", {}, ("sampling", "multistart_greedy")),
+          ("am", "smtwtp", {}, ("sampling",)), ("am", "sdvrp", {}, ("sampling", "multistart_sampling"))]
+    for kind, env, extra, decs in sb:
+        for dec in decs:
+            for B in ((1, 4) if q else (1, 2, 5)):
+                for r in range(2 if q else 5):
+                    out.append(dict(kind="select_best", policy=kind, env=env, extra=extra, n=6, B=B, k=rnd.choice([2, 3, 5]), decode=dec, s=rnd.randrange(10**6), wseed=r))
+    for extra in (dict(stages=2, mas=2, jobs=4, flatten=False), dict(stages=3, mas=2, jobs=5, flatten=False)):
+        for dec in ("sampling", "greedy"):
+            for r in range(3 if q else 10):
+                out.append(dict(kind="ffsp_multistage", extra=extra, B=rnd.choice([1, 4, 6]), decode=dec, s=rnd.randrange(10**6), wseed=r))
     for B in (1, 3, 6):
         for r in range(3 if q else 10):
             out.append(dict(kind="flagged", B=B, T=rnd.choice([4, 9]), N=rnd.choice([3, 7]), n=rnd.choice([6, 9]), s=rnd.randrange(10**6)))
@@ -81,7 +94,7 @@ def cases(tier, seed):
 def run_case(ctx, case):
     from vlib import c11impl
 
-    {"stepwise": c11impl.stepwise_case, "flagged": c11impl.flagged_case}.get(case.get("kind"), c11impl.case)(ctx, case)
+    {"stepwise": c11impl.stepwise_case, "flagged": c11impl.flagged_case, "select_best": c11impl.select_best_case, "ffsp_multistage": c11impl.ffsp_multistage_case}.get(case.get("kind"), c11impl.case)(ctx, case)
 
 
 MANIFEST = {
